@@ -72,6 +72,9 @@ def source(c):
         "flatten_field_merged": f'#[typeshare]\npub struct Host {{\n    pub keep: u32,\n    {sk}\n    #[serde(rename = "other", flatten)]\n    pub bad: Fine,\n}}\n',
         "flatten_field_second": f'#[typeshare]\npub struct Host {{\n    pub keep: u32,\n    {sk}\n    #[serde(default)]\n    /// doc\n    #[serde(flatten)]\n    pub bad: Fine,\n}}\n',
         "untagged_data_enum": "#[typeshare]\npub enum Host { A(u32), B }\n",
+        "untagged_enum_struct_variant": f"#[typeshare]\npub enum Host {{\n    Idle,\n    {sk}\n    Bad {{ since: u32 }},\n}}\n",
+        "untagged_enum_struct_variant_fields_skipped": f"#[typeshare]\npub enum Host {{\n    Idle,\n    {sk}\n    Bad {{ #[serde(skip)] since: u32, #[typeshare(skip)] more: bool }},\n}}\n",
+        "untagged_enum_empty_struct_variant": f"#[typeshare]\npub enum Host {{\n    Idle,\n    {sk}\n    Bad {{}},\n}}\n",
         "tag_without_content": '#[typeshare]\n#[serde(tag = "t")]\npub enum Host { A(u32), B }\n',
         "content_without_tag": '#[typeshare]\n#[serde(content = "c")]\npub enum Host { A(u32), B }\n',
         "tag_on_unit_enum": '#[typeshare]\n#[serde(tag = "t")]\npub enum Host { A, B }\n',
